@@ -32,6 +32,10 @@ CLAIMED = {
  "C17": dict(
    text="Lean theorems over a model of wrapToken.go/MICToken.go: Marshal equals the RFC 4121 4.2.6 layout; Unmarshal(Marshal t) = t; for ALL byte strings a successful decode implies token id, filler and direction flag are the expected ones; Verify is true exactly when the checksum equals the RFC checksum over payload||header(flags, seq, EC=RRC=0); the checksummed string determines payload, flags and sequence number, so accepting after any of them changed exhibits a checksum collision. Tied to Go by byte comparison of built tokens (independent Lean implementation) and by every bit flip / truncation / direction mismatch / changed field.",
    note=CRYPTO_NOTE, technique="Lean 4 proof (layout, decode strictness for all inputs, injectivity of the MAC input) + differential token bytes and exhaustive mutations", design="5/C17"),
+ "C19": dict(
+   text="Lean theorems over a model of pac_type.go/signature_data.go/client_info.go: acceptance holds exactly when the table parses, every buffer lies inside the data, the four mandatory buffers are present and decodable, the declared type is supported and the server signature equals the RFC checksum (usage 17) of the zeroed copy; the signature field never influences the zeroed copy; two inputs differing only in signature bytes are never both accepted; unsupported declared types are rejected; acceptance of the same signature for different data exhibits a checksum collision; first buffer of each kind wins; the group-SID rule is complete and sound. Tied to Go by re-signing the sample PACs with the Lean issuer model under all five types and flipping every bit, removing/duplicating/permuting buffers, corrupting table fields, overlapping signature buffers.",
+   note=CRYPTO_NOTE + "NDR decoding of KERB_VALIDATION_INFO (jcmturner/rpc) is a parameter of the model (its verdict per buffer is taken from the real decoder, run in a memory-limited child because it can exhaust memory on corrupted counts: that is a C04 matter).",
+   technique="Lean 4 proof (decision logic, zeroing lemmas, list induction) + exhaustive bit-flip differential run with an independent signer", design="5/C19"),
  "C14": dict(
    text="Lean theorems over a model of keytab.go: Unmarshal reads every file an independent writer (MIT format) renders — holes, with/without 32-bit kvno, v1/v2, both byte orders — to exactly the written entries (reads_spec); Marshal equals that writer (marshal_is_render) hence round trip for both versions (roundtrip); GetEncryptionKey is sound, complete and prefers the newest match (lookup_*). All for unbounded sizes. The model is tied to the Go code by differential runs on rendered, re-marshalled, mutated files and present/near-miss lookups.",
    note="Model written by hand (Impl follows Unmarshal incl. the discarded parsePrincipal error); v1 byte order is the host's (little endian here). External: encoding/binary.",
